@@ -209,13 +209,18 @@ def _draw(it, a, k=None):
         return perms[it.path.choose([(i, True) for i in range(len(perms))], "order")]
     if isinstance(term, tuple) and term and term[0] == "booleans":
         return it.path.choose([(False, True), (True, True)], "boolean")
+    if isinstance(term, tuple) and len(term) == 3 and term[0] == "shared" and term[2] == "types":
+        # the feature flags over the candidate TYPES: explored as "all enabled" / "all disabled" (the candidate drawn first is always kept, so every type is still reachable)
+        it.path.bounded_inputs.add("type feature flags: all enabled or all disabled")
+        return VObj(it.resolve_class("spec:UniformFeatures"), {"enabled": it.path.choose([(False, True), (True, True)], "all-types-enabled")})
     return VObj(it.resolve_class("spec:Features"), {})
 
 
 R.extern["hypothesis.strategies.sampled_from"] = lambda it, a, k: ("sampled_from", it.iterate_all(a[0]))
-R.extern["hypothesis.strategies.shared"] = lambda it, a, k: ("shared", a[0])
+R.extern["hypothesis.strategies.shared"] = lambda it, a, k: ("shared", a[0], k.get("key"))
 R.extern["hypothesis.strategies._internal.featureflags.FeatureStrategy"] = lambda it, a, k: ("features",)
 R.contract("spec:draw_mutation", args={"strategy": Opq("Any")}, returns=lambda it, env: _draw(it, [env["strategy"]]), trusted=True, note="E2 Hypothesis draw")
+R.nominal_methods["spec:UniformFeatures"] = {"is_enabled": lambda it, obj, a, k: obj.fields["enabled"]}
 R.nominal_methods["spec:Features"] = {"is_enabled": lambda it, obj, a, k: Bool.make(it, it.path.fresh("feature_enabled"))}
 SUCCESS_ = "result.name == 'SUCCESS'"
 # which keywords of a string schema can be violated by a value that can actually be SENT in the location (independent of the code): an empty path segment cannot
@@ -347,3 +352,75 @@ R.contract(
 )
 R.spec_funcs["deep"] = lambda it, v: it.B._deepcopy(v, {})
 
+
+# ------------------------------------------------------------------------------------------------- individual mutations: SUCCESS only for a real change
+def _decorated(name):
+    def setup(it):
+        from pyvc.extract import load_module
+
+        mod = load_module("schemathesis.specs.openapi.negative.mutations")
+        return it.module_get(mod, name), {}  # the @for_types-decorated object (decorator applied by interpretation)
+
+    return setup
+
+
+_Ctx = lambda **kw: Obj(MU + "MutationContext", keywords=Opq("Any"), non_keywords=Opq("Any"), location=kw.get("location", Choice("query", "body")), media_type=kw.get("media_type", NoneT))
+ObjSchema = DictOf(optional={"type": Choice("object", "string"), "required": Choice(["a"], ["a", "b"], []), "properties": Choice({"a": {"type": "integer"}}, {"a": {"type": "integer"}, "b": {}}, {})})
+
+
+class _FreshObjSchema(D):
+    def make(self, it, name, idx=()):
+        v = ObjSchema.make(it, name, idx)
+        return it.B._deepcopy(v, {})  # (the Choice values are shared between paths; the mutation works in place)
+
+
+R.contract(
+    MU + "remove_required_property",
+    variant="mutation",
+    prop="C02",
+    setup=_decorated("remove_required_property"),
+    args={"context": _Ctx(), "draw": Callable_(contract="spec:draw_mutation", name="draw"), "schema": _FreshObjSchema()},
+    raises=[],
+    ensures={
+        # SUCCESS means the schema now rejects valid data: one property that WAS required can no longer occur at all
+        "success_removes_one_required_property_entirely": "implies(" + SUCCESS_ + ", any(p not in schema.get('required', []) and p not in schema.get('properties', {}) and "
+            "length(schema.get('required', [])) == length(old(deep(schema)).get('required', [])) - 1 for p in old(deep(schema)).get('required', [])) and schema['type'] == 'object')",
+        "fails_without_required_properties_or_for_non_objects": "implies(length(old(deep(schema)).get('required', [])) == 0 or old(deep(schema)).get('type', 'object') != 'object', not " + SUCCESS_ + ")",
+        "failure_changes_nothing": "implies(not " + SUCCESS_ + ", schema == old(deep(schema)))",
+        "success_whenever_possible": "implies(length(old(deep(schema)).get('required', [])) > 0 and old(deep(schema)).get('type', 'object') == 'object', " + SUCCESS_ + ")",
+    },
+    bounded_note="object schemas with up to 2 properties / required names",
+    replayable=False,
+)
+TypedSchema = DictOf(required={"type": Choice("string", "integer", "number", "boolean", "object", ["integer", "string"], ["string", "integer", "number", "object", "array", "boolean", "null"])},
+                     optional={"maxLength": Const(3), "minimum": Const(0)})
+
+
+class _FreshTypedSchema(D):
+    def make(self, it, name, idx=()):
+        if it.path.choose([(False, True), (True, True)], "untyped"):
+            return {"minimum": 0}
+        return it.B._deepcopy(TypedSchema.make(it, name, idx), {})
+
+
+R.spec_funcs["types_of"] = lambda it, sc: ([sc["type"]] if isinstance(sc.get("type"), str) else list(sc.get("type", [])))
+R.contract(
+    MU + "change_type",
+    prop="C02",
+    args={"context": _Ctx(location=Choice("query", "path", "header", "body"), media_type=OneOf(NoneT, Const("application/x-www-form-urlencoded"))), "draw": Callable_(contract="spec:draw_mutation", name="draw"),
+          "schema": _FreshTypedSchema()},
+    raises=[],
+    ensures={
+        # SUCCESS means every value of the new schema has a type the original did not allow (an integer is also a number: never integer -> number)
+        "success_picks_a_type_outside_the_original": "implies(" + SUCCESS_ + ", is_str_(schema['type']) and schema['type'] not in types_of(old(deep(schema))) and "
+                                                     "not (schema['type'] == 'number' and 'integer' in types_of(old(deep(schema)))))",
+        # in a header, path or query everything is sent as text: a `string` schema has no other type to offer; an untyped schema neither; form data stays an object
+        "never_for_string_parameters_untyped_schemas_or_form_data": "implies('type' not in old(deep(schema)) or context.media_type == 'application/x-www-form-urlencoded' or "
+                                                                    "('string' in types_of(old(deep(schema))) and context.location in ('query', 'path', 'header')), not " + SUCCESS_ + " and schema == old(deep(schema)))",
+        "path_parameters_never_become_objects_or_arrays": "implies(" + SUCCESS_ + " and context.location == 'path', schema['type'] not in ('object', 'array'))",
+        "keywords_of_other_types_are_dropped": "implies(" + SUCCESS_ + ", ('maxLength' not in schema or schema['type'] == 'string') and ('minimum' not in schema or schema['type'] in ('integer', 'number')))",
+    },
+    bounded_note="7 type declarations, 2 type-specific keywords",
+    replayable=False,
+)
+R.spec_funcs["is_str_"] = lambda it, v: isinstance(v, str)
